@@ -118,6 +118,7 @@ static void free_cd_in(struct compoundData *cd) { __real_free(cd->Elements); __r
 static void do_add(char *wa, char *wb, char *a, char *b) {
   struct compoundData A, B;
   static char loc0[256];
+  setlocale(LC_NUMERIC, "C");   /* ops without a locale argument run in the C locale, whatever an earlier parse op left */
   if (!rd_cd(a, &A) || !rd_cd(b, &B)) { printf("bad-op\n"); return; }
   double wA = strtod(wa, NULL), wB = strtod(wb, NULL);
   strncpy(loc0, setlocale(LC_NUMERIC, NULL), sizeof loc0 - 1);
@@ -153,6 +154,7 @@ int main(void) {
     else if (!strcmp(tok[0], "parse") && nt == 3) { char l[256]; unesc(tok[1], l); do_parse(l, unesc(tok[2], buf)); }
     else if (!strcmp(tok[0], "null") && nt == 1) {
       xrl_error *e = NULL; static char loc0[256];
+      setlocale(LC_NUMERIC, "C");
       strncpy(loc0, setlocale(LC_NUMERIC, NULL), sizeof loc0 - 1);
       long base = live_blocks;
       struct compoundData *cd = CompoundParser(NULL, &e);
